@@ -147,38 +147,6 @@ pub fn check_selection(input: &[u8], o: &Opts) -> (Vec<(String, String)>, Option
     (out, Some(Selection { emitted, pens, used }), Some(digest))
 }
 
-fn s_cap_families(thorough: bool) -> Space {
-    let mut cases = vec![];
-    for v in 1..=40usize {
-        for e in 0..4usize {
-            for f in [Family::Ctr, Family::Lo, Family::Hi, Family::Pad] {
-                for m in 0..3usize {
-                    if !thorough && m != 2 && !(v <= 10 || v % 5 == 0) {
-                        continue;
-                    }
-                    let cap = r::cap(v, e, m);
-                    for len in [cap, 1] {
-                        cases.push(Case {
-                            input: spaces::Input::Fam(f, m as u8, len as u32),
-                            opts: Opts { mode: Some(m as u8), ecl: Some(e as u8), version: Some(v as u8), mask: None },
-                        });
-                    }
-                }
-            }
-        }
-    }
-    Space {
-        name: "S_cap_families".into(),
-        describe: if thorough {
-            "all 160 (version, level) x {ctr, all-minimum, all-maximum, pad look-alike} x 3 modes at capacity and at length 1 (extreme dark ratios, long runs)".into()
-        } else {
-            "all 160 (version, level) x {ctr, all-minimum, all-maximum, pad look-alike} in byte mode (all 3 modes for v<=10 and v divisible by 5) at capacity and at length 1".into()
-        },
-        cases,
-        exhaustive: true,
-    }
-}
-
 pub fn case_json(input: &[u8], o: &Opts) -> Value {
     let mut c = subject::case_json(input, o);
     c["kind"] = json!("selection");
@@ -200,7 +168,7 @@ pub fn run(ctx: &Ctx) -> Collector {
         sp.cases.retain(|c| if let spaces::Input::Fam(_, m, len) = c.input { (len as usize) <= r::cap(40, c.opts.ecl.unwrap() as usize, m as usize) } else { true });
         spaces_v.push(sp);
     }
-    spaces_v.push(s_cap_families(thorough));
+    spaces_v.push(spaces::s_cap_families(thorough));
     if thorough {
         spaces_v.push(spaces::s_small(&[Some(3)], true));
     }
